@@ -95,3 +95,42 @@ silent(P, "paulix-adjoint-full-class-name",
 silent(P, "doubleexcitation-pow-parameters-view",
        [(QC, "        return [DoubleExcitation(self.data[0] * z, wires=self.wires)]",
              "        (theta,) = self.parameters\n        return [DoubleExcitation(z * theta, wires=self.wires)]")])
+
+# ---- R-C03-ctrlorder -----------------------------------------------------------------------------
+CTRL = "R-C03-ctrlorder"
+CT = "pennylane/ops/op_math/controlled.py"
+CT2 = "pennylane/ops/op_math/controlled2.py"
+# independent seeded change C03/patch1
+fire(P, "resolve-ctrl-values-base-first",
+     (CT, "    return math.array(math.concatenate([control_values, base_ctrl_values]), dtype=bool)",
+          "    return math.array(math.concatenate([base_ctrl_values, control_values]), dtype=bool)"),
+     CTRL, "_resolve_ctrl_values")
+fire(P, "controlled-simplify-values-base-first",
+     (CT, "                control_values=self.control_values + self.base.control_values,",
+          "                control_values=self.base.control_values + self.control_values,"),
+     CTRL, "Controlled.simplify")
+fire(P, "controlled2-simplify-wires-base-first",
+     (CT2, "                control=self.control_wires + self.base.control_wires,",
+           "                control=self.base.control_wires + self.control_wires,"),
+     CTRL, "Controlled2.simplify")
+fire(P, "create-controlled-op-wires-base-first",
+     (CT, "            control=control + op.control_wires,", "            control=op.control_wires + control,"),
+     CTRL, "create_controlled_op")
+fire(P, "concat-wires-helper-second-first",
+     (CT, "    return wire1 + wire2", "    return wire2 + wire1"),
+     CTRL, "_concat_wires")
+silent(P, "controlled-simplify-both-base-first",
+       [(CT, "                control=self.control_wires + self.base.control_wires,\n                control_values=self.control_values + self.base.control_values,",
+             "                control=self.base.control_wires + self.control_wires,\n                control_values=self.base.control_values + self.control_values,")])
+silent(P, "create-controlled-op-values-by-concatenate",
+       [(CT, "            control_values=control_values + op.control_values,",
+             "            control_values=list(math.concatenate([control_values, op.control_values])),")])
+silent(P, "create-controlled-op2-rename-local-and-inline-helper-call",
+       [(CT, "        ctrl_values = _resolve_ctrl_values(control_values, op.control_values, len(control_wires))\n", ""),
+        (CT, "            control_values=ctrl_values,\n            work_wires=_concat_wires(work_wires, op.work_wires),",
+             "            control_values=_resolve_ctrl_values(control_values, op.control_values, len(control_wires)),\n"
+             "            work_wires=_concat_wires(work_wires, op.work_wires),")])
+silent(P, "controlled2-simplify-rename-local-tuple-operands",
+       [(CT2, "            ctrl_values = qp.math.concatenate([self.control_values, self.base.control_values])",
+              "            merged = qp.math.concatenate((self.control_values, self.base.control_values))"),
+        (CT2, "                control_values=math.cast(ctrl_values, bool),", "                control_values=math.cast(merged, bool),")])
